@@ -18,7 +18,7 @@ PROPS['C10'] = dict(
     level_text=('Unbounded deductive proof (Verus/Z3) of contracts spliced onto the text of switch.rs cut from /repo on every run; '
                 'Kani (CBMC) full-domain harnesses on the unextracted functions. Proof is the right level because the property is '
                 'universally quantified over expressions, operands and thresholds and is a per-call input/output relation.'),
-    level_note='Trusted: rustc, Verus+Z3, Kani+CBMC, the extractor; assumed: parser emits the prefix encoding, ArrayDeque(Saturating) contract, leaf-iterator split (checked by Kani on the real function, bounded environment).',
+    level_note='Trusted: rustc, Verus+Z3, Kani+CBMC, the extractor; assumed: the parser emits the prefix encoding of A5. The two assumptions inside the Verus unit are each checked by Kani on the real code: the ArrayDeque(Saturating) contract (c10_k_arraydeque_contract, complete for capacity 8) and the leaf-iterator split R5 (c10_b_leaf_*, bounded environment, complete for the 8-entry histories).',
     technique='contract-based deductive verification (Verus requires/ensures/invariants on extracted real code + Kani harnesses)',
     explanation=('Contracts on the real switch.rs functions. Verus (unbounded): (A1) lossy tick codec equals its documented spec and '
                  'round-trips within the documented resolution; (A2) every OpCode constructor followed by opcode_type decodes to the operand it '
@@ -38,6 +38,7 @@ PROPS['C10'] = dict(
         H('keyberon', 'action::switch', 'c10_k_codec_bool', kind='complete', functions=['keyberon/src/action/switch.rs OpCode::new_bool', 'keyberon/src/action/switch.rs OperatorAndEndIndex::from'], covers='3 operators x all end indices <= 0x0FFF'),
         H('keyberon', 'action::switch', 'c10_k_codec_two_word', kind='complete', functions=['keyberon/src/action/switch.rs OpCode::new_active_input', 'keyberon/src/action/switch.rs OpCode::new_historical_input', 'keyberon/src/action/switch.rs OpCode::new_layer', 'keyberon/src/action/switch.rs OpCode::new_base_layer'], covers='all coordinates row<4 col<1024, recency<8, all layers < 60000'),
         H('keyberon', 'action::switch', 'c10_k_codec_ticks_neg', kind='complete', expect='fail', covers='must-fail twin: lossy codec claimed exact'),
+        H('keyberon', 'action::switch', 'c10_k_arraydeque_contract', kind='complete', covers='the ArrayDeque<_, 8, Saturating> contract that the Verus evaluator proof assumes, on the real crate, all lengths 0..=8', functions=['arraydeque 0.5.1 ArrayDeque::{push_back, pop_back, default} (instantiation used by evaluate_boolean)']),
         H('keyberon', 'action::switch', 'c10_b_leaf_key', kind='bounded', bound='<= 3 active keys', functions=['keyberon/src/action/switch.rs evaluate_boolean (KeyCode leaf arm)']),
         H('keyberon', 'action::switch', 'c10_b_leaf_key_history', kind='complete', bound='history <= 8 entries = capacity of the real History', functions=['keyberon/src/action/switch.rs evaluate_boolean (HistoricalKeyCode leaf arm)']),
         H('keyberon', 'action::switch', 'c10_b_leaf_ticks_gt', kind='complete', bound='history <= 8 entries = capacity of the real History', functions=['keyberon/src/action/switch.rs evaluate_boolean (TicksSinceGreaterThan leaf arm)']),
@@ -59,7 +60,7 @@ PROPS['C10'] = dict(
     trusted_base=['rustc', 'Verus 0.2026.09.13 / Z3', 'extractor lib/rustcut.py + lib/verusgen.py (rewrites logged in rewrites_applied)'],
 )
 
-DYN_FUNCS = ['new', 'add_event', 'tick_record_state', 'tick_replay_state', 'begin_record_macro', 'record_press',
+DYN_FUNCS = ['new', 'add_release_for_all_unreleased_presses', 'lemma_closed', 'add_event', 'tick_record_state', 'tick_replay_state', 'begin_record_macro', 'record_press',
              'record_release', 'stop_macro', 'key_event', 'delay', 'as_u16', 'as_u16_linux', 'from',
              'lemma_release_appended', 'lemma_all_released', 'replay_step_emits_head']
 
@@ -69,17 +70,18 @@ PROPS['C19'] = dict(
                 'cut from /repo on every run: record = append to the typed sequence with the one-event lag; stop/begin = typed minus the stop '
                 'key minus the truncated tail plus one release per key still down; replay = pop exactly the head per due tick with the '
                 'configured pacing. Partial: recursion guard (play_macro) and "same output as typing again" are not decided.'),
-    level_note=('Trusted: rustc, Verus+Z3, extractor. Assumed: contract of add_release_for_all_unreleased_presses (external_body, iterates a hash set); '
-                'FxHashSet/VecDeque follow the vstd contracts of the std containers; play_macro not covered.'),
+    level_note=('Trusted: rustc, Verus+Z3, extractor. Assumed: the set contract of FxHashSet (prelude type), the vstd contracts of Vec / VecDeque / Option; '
+                'play_macro not covered.'),
     technique='contract-based deductive verification (Verus requires/ensures on extracted real code, ghost view typed(state))',
     design_ref='DESIGN.md section 4, C19',
     explanation=('Verus contracts on src/kanata/dynamic_macro.rs: add_event, record_press, record_release, tick_record_state, begin_record_macro, '
-                 'stop_macro, tick_replay_state, ReplayEvent accessors, plus the OsCode->u16 conversion chain they call. No preconditions on '
+                 'stop_macro, tick_replay_state, add_release_for_all_unreleased_presses (both loops, with invariants over the ghost iteration sequence), '
+                 'ReplayEvent accessors, plus the OsCode->u16 conversion chain they call. No preconditions on '
                  'stop_macro/begin_record_macro: they must be panic-free for every recorder state.'),
     verus=[dict(unit='dynmacro', only=DYN_FUNCS)],
     kani=[],
     assumptions=[
-        'add_release_for_all_unreleased_presses appends exactly one zero-delay release per key still down (assumed, external_body)',
+        'the hash set used by add_release_for_all_unreleased_presses and active_macros is the prelude type with the ASSUMED contract of a set (insert/remove on a mathematical set; by-value iteration yields every element exactly once in unspecified order): FxHashSet itself is not verified',
         'play_macro (recursion guard, queue prepending) is not under contract: "never replays itself recursively" is NOT decided',
         '"produces the same output as typing them again" is a whole-state-machine statement and is NOT decided',
         'only the target_os = "linux" arms of OsCode::as_u16 are verified',
@@ -324,6 +326,14 @@ def find_harness(name):
 
 
 EXTRA_HARNESSES = []
+
+GLOBAL_ASSUMPTIONS = [
+    'machine arithmetic is NOT idealised: Verus checks every u8/u16/usize operation for overflow/underflow as an obligation, Kani/CBMC is bit-precise with overflow checks on; no function under contract uses floating point',
+    'unsafe code: the two OsCode<->KeyCode transmutes are checked with -Z valid-value-checks (C11); History::tick_hist reads MaybeUninit slots (Kani runs it without uninitialised-memory checks); no other unsafe block is on a verified path',
+    'termination: proved for the Verus functions (decreases clauses on both evaluator loops and on SwitchActions::next); NOT proved by Kani beyond the stated unwinding bounds (unwinding assertions are on)',
+    'concurrency (the processing thread, the global mutexes for custom key names / zippychord) is outside every obligation',
+    'only the target_os = "linux" configuration of /repo is verified',
+]
 
 # thorough tier: the same harnesses with larger bounds (applied to the per-run snapshot of the harness files)
 THOROUGH_BOUNDS = {
